@@ -58,8 +58,12 @@ def gn_inverse(self, a):
 
 
 # pycoin/ecdsa/Generator.py :: Generator.possible_public_pairs_for_signature
+# pycoin/ecdsa/Generator.py :: Generator.possible_public_pairs_for_signature
 def gn_possible_public_pairs(self, value, signature, y_parity=None):
     r, s = signature
+    order = self._order
+    if value == 0 or s < 1 or s >= order or (r % order == 0):
+        return []
     try:
         points = self.points_for_x(r)
     except ValueError:
@@ -80,8 +84,11 @@ def gn_possible_public_pairs(self, value, signature, y_parity=None):
 
 
 # pycoin/ecdsa/Generator.py :: Generator.points_for_x
+# pycoin/ecdsa/Generator.py :: Generator.points_for_x
 def gn_points_for_x(self, x):
     p = self._p
+    if not 0 <= x < p:
+        raise ValueError()
     alpha = (pow(x, 3, p) + self._a * x + self._b) % p
     y0 = self.modular_sqrt(alpha)
     if y0 == 0:
